@@ -34,6 +34,14 @@ def instances(tier, seed):
         for cls in ("mps", "mpdm"):
             out.append(dict(op="imag_taylor", order=order, cls=cls, label="imaginary-time Taylor order=%d %s" % (order, cls), key="imag/taylor"))
     out.append(dict(op="imag_rk", method="Heun_RK2", cls="mps", label="imaginary-time general RK Heun", key="imag/rk"))
+    if tier == "thorough":
+        from checks import c09 as _c09
+        for m in _c09.NONEMBEDDED:
+            if m not in ("Heun_RK2", "Fehlberg5"):     # the six-stage tableau with a bond-2 operator exceeds the worker's memory cap
+                out.append(dict(op="imag_rk", method=m, cls="mps", label="imaginary-time general RK %s" % m, key="imag/rk"))
+        for scheme in (2, 4):
+            for nlev in (2, 4):
+                out.append(dict(op="propagator_ex", scheme=scheme, nlev=nlev, label="exact_propagator EX eigen-decomposition per mode scheme=%d levels=%d" % (scheme, nlev), key="propagator/EX/modes"))
     out.append(dict(op="imag_rk4", cls="mps", label="imaginary-time RK4", key="imag/rk4"))
     for space in ("GS", "EX"):
         for scheme in (2, 4):
@@ -208,7 +216,7 @@ def make_harness(P):
                     ctx.check("normalize(mps_norm_to_coeff): the norm moves into the prefactor (represented vector unchanged)", ctx.eq(psi.coeff, c0 * N))
             return
         if op == "propagator_ex":
-            model, phs = holstein_ex(P["scheme"])
+            model, phs = holstein_ex(P["scheme"], P.get("nlev", 3))
             x = ctx.real("x", -0.4)
             shift = ctx.real("shift", 0.25)
             prop = Mpo.exact_propagator(model, x, "EX", shift)
